@@ -18,6 +18,24 @@ use crate::refmodel::refzoned as rz;
 use crate::refmodel::wide::*;
 use crate::{ensure, fail};
 
+/// Build a rounding configuration with the three setters applied in one of the six possible
+/// orders (chosen from the case itself): the result must not depend on the order.
+macro_rules! build_round {
+    ($ty:ty, $unit:expr, $mode:expr, $inc:expr) => {{
+        let (u, m, i) = ($unit, $mode, $inc);
+        let order = ((i as u64).wrapping_mul(31) ^ (u as u64).wrapping_mul(7) ^ (m as u64)) % 6;
+        let b = <$ty>::new();
+        match order {
+            0 => b.smallest(u).mode(m).increment(i),
+            1 => b.smallest(u).increment(i).mode(m),
+            2 => b.mode(m).smallest(u).increment(i),
+            3 => b.mode(m).increment(i).smallest(u),
+            4 => b.increment(i).smallest(u).mode(m),
+            _ => b.increment(i).mode(m).smallest(u),
+        }
+    }};
+}
+
 /// units per next-larger unit, for Hour..Nanosecond (index 4..=9)
 fn next_unit_count(unit: usize) -> i64 {
     match unit {
@@ -148,7 +166,7 @@ fn test_timestamp(c: &TsCase, cx: &mut Cx) -> CaseResult {
     let g = if c.unit >= 4 { UNIT_NS[c.unit].saturating_mul(c.inc.max(1) as i128) } else { NS_PER_DAY };
     let x = grid_value(TS_MIN_NS, TS_MAX_NS, if legal { g } else { UNIT_NS[c.unit.max(4)] }, c.grid);
     let ts = gen::mk_ts(x);
-    let got = ts.round(TimestampRound::new().smallest(UNITS[c.unit]).mode(c.mode.to_jiff()).increment(c.inc));
+    let got = ts.round(build_round!(TimestampRound, UNITS[c.unit], c.mode.to_jiff(), c.inc));
     let ctx = format!("{ts}.round({:?}, inc {}, {:?})", UNITS[c.unit], c.inc, c.mode);
     if !legal {
         cx.class("illegal-increment");
@@ -205,7 +223,7 @@ fn test_time(c: &DtCase, cx: &mut Cx) -> CaseResult {
     let g = UNIT_NS[c.unit.max(3)] * c.inc.clamp(1, 100_000) as i128;
     let x = grid_value(0, NS_PER_DAY - 1, if legal { g } else { UNIT_NS[c.unit.max(4)] }, c.grid);
     let t: Time = gen::mk_time(x as i64);
-    let got = t.round(TimeRound::new().smallest(UNITS[c.unit]).mode(c.mode.to_jiff()).increment(c.inc));
+    let got = t.round(build_round!(TimeRound, UNITS[c.unit], c.mode.to_jiff(), c.inc));
     let ctx = format!("{t}.round({:?}, inc {}, {:?})", UNITS[c.unit], c.inc, c.mode);
     if !legal {
         cx.class("illegal-increment");
@@ -243,7 +261,7 @@ fn test_datetime(c: &DtCase, cx: &mut Cx) -> CaseResult {
     let g = if c.unit == 3 { NS_PER_DAY } else { UNIT_NS[c.unit.max(3)] * c.inc.clamp(1, 100_000) as i128 };
     let x = grid_value(0, NS_PER_DAY - 1, if legal { g } else { UNIT_NS[c.unit.max(4)] }, c.grid);
     let dt: DateTime = gen::mk_date(c.ymd.0, c.ymd.1, c.ymd.2).to_datetime(gen::mk_time(x as i64));
-    let got = dt.round(DateTimeRound::new().smallest(UNITS[c.unit]).mode(c.mode.to_jiff()).increment(c.inc));
+    let got = dt.round(build_round!(DateTimeRound, UNITS[c.unit], c.mode.to_jiff(), c.inc));
     let ctx = format!("{dt}.round({:?}, inc {}, {:?})", UNITS[c.unit], c.inc, c.mode);
     if !legal {
         cx.class("illegal-increment");
@@ -313,7 +331,7 @@ fn test_duration(c: &DurCase, cx: &mut Cx) -> CaseResult {
     let (lo, hi) = if c.small { (-400_000 * NS_PER_SEC, 400_000 * NS_PER_SEC) } else { (SD_MIN_NS, SD_MAX_NS) };
     let x = grid_value(lo, hi, if legal != Some(false) { g } else { UNIT_NS[c.unit.max(4)] }, c.grid);
     let d = mk_sd(x);
-    let got = d.round(SignedDurationRound::new().smallest(UNITS[c.unit]).mode(c.mode.to_jiff()).increment(c.inc));
+    let got = d.round(build_round!(SignedDurationRound, UNITS[c.unit], c.mode.to_jiff(), c.inc));
     let ctx = format!("{d:?}.round({:?}, inc {}, {:?})", UNITS[c.unit], c.inc, c.mode);
     match legal {
         Some(false) => {
@@ -355,7 +373,7 @@ fn test_offset(c: &DurCase, cx: &mut Cx) -> CaseResult {
     let xs = grid_value(-93599, 93599, if legal != Some(false) { (g / NS_PER_SEC).max(1) } else { 1 }, c.grid);
     let x = xs * NS_PER_SEC;
     let o = Offset::from_seconds(xs as i32).unwrap();
-    let got = o.round(OffsetRound::new().smallest(UNITS[c.unit]).mode(c.mode.to_jiff()).increment(c.inc));
+    let got = o.round(build_round!(OffsetRound, UNITS[c.unit], c.mode.to_jiff(), c.inc));
     let ctx = format!("Offset({xs}s).round({:?}, inc {}, {:?})", UNITS[c.unit], c.inc, c.mode);
     match legal {
         Some(false) => {
@@ -412,7 +430,7 @@ fn test_zoned(c: &ZCase, cx: &mut Cx) -> CaseResult {
         }
     }
     let zdt = crate::props::c06::mk_zoned(&z, ns);
-    let got = zdt.round(ZonedRound::new().smallest(UNITS[c.unit]).mode(c.mode.to_jiff()).increment(c.inc));
+    let got = zdt.round(build_round!(ZonedRound, UNITS[c.unit], c.mode.to_jiff(), c.inc));
     let ctx = format!("[{}] {zdt}.round({:?}, inc {}, {:?})", z.label, UNITS[c.unit], c.inc, c.mode);
     if !legal {
         cx.class("illegal-increment");
